@@ -2,6 +2,7 @@ package main
 
 import (
 	"fmt"
+	"os"
 	"sort"
 	"strings"
 )
@@ -397,6 +398,36 @@ func checkC07(ctx *Ctx) {
 				}
 			}
 		}
+	}
+	// the same for a process without out-ports (it becomes the workflow's driver), alone and fed by an upstream
+	for _, w := range []struct {
+		max, cores int
+		fed        bool
+	}{{2, 3, false}, {1, 2, true}, {3, 4, true}} {
+		d := &Desc{Name: "oversize-driver", Max: w.max}
+		leaf := Node{Name: "leaf", Kind: "proc", Cores: w.cores, Cmd: `( echo "S leaf x $EPOCHREALTIME" >> "$VERIF_CMDTRACE" ; sleep 0.01 )`}
+		if w.fed {
+			d.Nodes = append(d.Nodes, Node{Name: "src", Kind: "filesource", Paths: []string{"a.txt", "b.txt"}})
+			leaf.Cmd = `( echo "S leaf x $EPOCHREALTIME" >> "$VERIF_CMDTRACE" ; cat {i:in} > /dev/null )`
+			d.Edges = append(d.Edges, Edge{From: "src.out", To: "leaf.in"})
+		}
+		d.Nodes = append(d.Nodes, leaf)
+		rr := RunWorkflow(d, RunOpts{Timeout: 8e9, Pre: map[string]string{"a.txt": "a\n", "b.txt": "b\n"}})
+		ctx.Res.Eval(fmt.Sprintf("oversize-driver%v", w), true, w)
+		ctx.Res.Count("oversize")
+		deadlock := rr.Exit == -2 || (rr.Exit == 2 && strings.Contains(rr.Stderr, "all goroutines are asleep"))
+		if deadlock {
+			ctx.Res.Violate(Violation{What: fmt.Sprintf("CoresPerTask %d > maxConcurrentTasks %d on the process without out-ports hangs instead of being rejected", w.cores, w.max), Class: "slots.oversize", Witness: w})
+		} else if rr.Exit == 0 {
+			ctx.Res.Violate(Violation{What: fmt.Sprintf("CoresPerTask %d > maxConcurrentTasks %d on the process without out-ports was not rejected (exit 0)", w.cores, w.max), Class: "slots.oversize", Witness: w})
+		} else {
+			for _, l := range rr.CmdTrace {
+				if strings.HasPrefix(l, "S leaf ") {
+					ctx.Res.Violate(Violation{What: "a task of the oversize driver process was executed: " + l, Class: "slots.oversize", Witness: w})
+				}
+			}
+		}
+		os.RemoveAll(rr.Dir)
 	}
 	slotModelSearch(ctx)
 }
